@@ -368,13 +368,16 @@ def run(pid, P, a, seed, t0):
                            solver_output=(ob.model or "")[:6000], source_sha=next((r.source_sha for r in results if r.qual == func), None)),
                       open(path, "w"), indent=1)
             violations.append((path, ob, False))
+    missing_searched = {}
     for k in missing:
         path = os.path.join(VERIF, "out", "replays", f"{pid}_missing.json")
         json.dump(dict(status="obligation-missing", property=pid, obligation=k,
                        solver_output="an obligation discharged on the baseline tree is no longer generated (check or raise removed)"),
                   open(path, "w"), indent=1)
         func = k.split("::")[0]
-        found = search_input(func, "missing") if db.get(func) else None
+        if func not in missing_searched:            # one search per function, not one per missing key
+            missing_searched[func] = search_input(func, "missing") if db.get(func) else None
+        found = missing_searched[func]
         if found:
             violations.append((found[0], None, True))
         else:
